@@ -1,5 +1,5 @@
 """Property -> rules mapping, floors, level texts."""
-from .rules import termination, streams, decoders, layouts, flow, names, pairing
+from .rules import termination, streams, decoders, layouts, flow, names, pairing, tables, cue
 
 RULES = {}
 FLOORS = {}
@@ -44,6 +44,12 @@ for _f, _n in (("N1", 10), ("N2", 10), ("N3", 10), ("N4", 10), ("N5", 8), ("N6",
 for _f, _n in (("P1", 10), ("P2", 6), ("P3", 4), ("P4", 8), ("P5", 15), ("P6", 8), ("P7", 12)):
     reg(_f, getattr(pairing, "rule_" + _f), _n)
 
+for _f, _n in (("B1", 25), ("B2", 20), ("B3", 5)):
+    reg(_f, getattr(tables, "rule_" + _f), _n)
+
+for _f, _n in (("Q1", 20), ("Q2", 12), ("Q3", 4), ("Q4", 3), ("C1", 15), ("C2", 5)):
+    reg(_f, getattr(cue, "rule_" + _f), _n)
+
 COMMON_ASSUMPTIONS = [
     "static analysis of /repo's source only: the package is never imported or executed by the check",
     "the `construct` and `numpy` libraries behave as documented (Pointer seeks absolutely, Prefixed back-patches its length, Struct parses fields in order)",
@@ -57,13 +63,13 @@ def _p(rules, explanation, extra_assumptions=()):
 PROPS = {
     "C01": _p(["L1a", "L2", "L8a", "S1", "S3", "S4", "D1a", "D2", "D3a", "D4", "L7", "P7", "N1"], "tmp"),
     "C02": _p(["L1r", "L2", "L4", "L5", "L8r", "D1r", "D2", "D3r", "D4", "S3", "S7", "T1"], "tmp"),
-    "C03": _p(["L8c", "T1", "P5"], "tmp"),
+    "C03": _p(["L8c", "T1", "P5", "C2", "Q4", "Q2"], "tmp"),
     "C04": _p(["L1w", "L2", "L7", "P5"], "tmp"),
     "C05": _p(["P1", "P2", "P3", "P6", "P5", "P7", "N3", "N7"], "tmp"),
     "C06": _p(["N1", "N2", "N3", "N4", "N5", "N7", "P1", "T1"], "tmp"),
     "C07": _p(["S1", "S2", "S3", "T1", "D1", "D2", "D3", "D4"], "tmp"),
     "C08": _p(["S5", "S7", "S3", "S4", "S6"], "tmp"),
-    "C09": _p(["S8", "S3", "L1c", "L2"], "tmp"),
+    "C09": _p(["C1", "C2", "S8", "S3", "L1c", "L2", "Q3"], "tmp"),
     "C10": _p(["N6", "N1", "N2", "N4", "N7", "N8", "T1"], "tmp"),
     "C11": _p(["S6", "S5", "S8"], "tmp"),
     "C12": _p(["P4", "P5", "P6"], "tmp"),
@@ -71,8 +77,8 @@ PROPS = {
     "C14": _p(["L1t", "L4", "L2"], "tmp"),
     "C15": _p(["S4", "S9", "T1", "L1w"], "tmp"),
     "C16": _p(["S6", "S8", "N2", "N7"], "tmp"),
-    "C17": _p(["T1"], "tmp"),
-    "C18": _p(["T2"], "tmp"),
+    "C17": _p(["Q1", "Q2", "Q3", "Q4", "T1"], "tmp"),
+    "C18": _p(["B1", "B2", "B3"], "tmp"),
     "C19": _p(["T2"], "tmp"),
     "C20": _p(["L1i", "L1ri", "L2", "L6", "T4"], "tmp"),
 }
